@@ -794,7 +794,7 @@ class MultiShapeBase(SimpleShapeMixin, BaseShape, ABC):
         return set(self.geoshapes) == set(other.geoshapes) and self.dt == other.dt
 
     def __hash__(self) -> int:
-        return hash((tuple(hash(x) for x in self.geoshapes), self.dt))
+        return hash((frozenset(self.geoshapes), self.dt))
 
     def __iter__(self):
         return self.geoshapes.__iter__()
